@@ -3,7 +3,9 @@
 mod cases;
 mod dump;
 mod keys;
+mod ksim;
 mod lsim;
+mod pinfo;
 
 fn main() {
     let args: Vec<String> = std::env::args().collect();
@@ -14,6 +16,8 @@ fn main() {
     match args[1].as_str() {
         "keys" => keys::run(&args[2..]),
         "lsim" => lsim::run(&args[2..]),
+        "ksim" => ksim::run(&args[2..]),
+        "pinfo" => pinfo::run(&args[2..]),
         other => {
             eprintln!("unknown subcommand {other}");
             std::process::exit(2);
